@@ -222,7 +222,7 @@ def run(ctx):
         if len(ctx.samples) > 8:
             res["samples"] = []
         ctx.merge(res)
-    dipole(ctx)
+    ctx.guarded("dipole", dipole, ctx)
     ctx.cov["configurations"] = len(jobs)
     ctx.exhaustive = True
 
